@@ -105,6 +105,18 @@ def padded_cases(draw, tier):
     return case
 
 
+@st.composite
+def gap_cases(draw, tier, fam):
+    """arguments whose first m-1 coefficient layers vanish identically (x = x0 + x_m t^m + ..., all elements, all directions):
+    kernels that derive a needed derivative order from the first non-vanishing layer and from D must do so for every D"""
+    case = draw(M.meta_cases(tier, first=fam, families=M.CHEAP_TAIL, max_len=2, Dlist=[5, 3, 7, 4, 8, 5]))
+    m = draw(st.sampled_from([2, 2, 3]))
+    for h in case['hi'] + case['althi']:
+        h[:m - 1] = 0.0
+    case['gap'] = m
+    return case
+
+
 def _nontrivial(case):
     if case['D'] < 4:
         return False
@@ -129,6 +141,10 @@ def buckets(tier):
     bl.append(Bucket('fwd:compose', (lambda: M.meta_cases(tier, max_len=8, Dmin=2)), prop_forward,
                      {'quick': 40, 'thorough': 600}, nontrivial=_nontrivial, classes=M.base_classes,
                      shards={'quick': 6, 'thorough': 12}, weight=4.0))
+    for fam in ('special', 'unp', 'un', 'pow'):
+        bl.append(Bucket('fwd-gap:' + fam, (lambda fam=fam: gap_cases(tier, fam)), prop_forward, {'quick': 40, 'thorough': 400},
+                         nontrivial=(lambda case: case['D'] % case['gap'] != 0 and any(np.any(h[case['gap'] - 1:] != 0) for h in case['hi'])),
+                         classes=(lambda case: M.base_classes(case) + ['first-nonzero-order=%d' % case['gap']]), weight=3.0))
     bl.append(Bucket('drivers-padded', (lambda: padded_cases(tier)), prop_drivers_padded, {'quick': 150, 'thorough': 1500},
                      nontrivial=(lambda case: 'nonlinear' in PG.features(case) and np.any(case['pad'] != 0)),
                      classes=(lambda case: ['driver=' + case['driver'], 'extra=%d' % case['k']] + PG.features(case)),
